@@ -15,7 +15,9 @@
    - seeded change C14-10 (a body that returned nil is rolled back when its most recent statement
      failed);
    - seeded change C14-12 (after a successful Rollback a recovered runtime.Error is raised again
-     instead of being returned as "recover from ..."). *)
+     instead of being returned as "recover from ...");
+   - seeded change C14-13 (a Commit that failed while the caller's context is done is followed by a
+     Rollback: two end calls on one transaction). *)
 From Coq Require Import List ZArith Bool.
 From GZ Require Import C14.Model C14.Check.
 Import ListNotations.
@@ -312,6 +314,44 @@ Example body_panic_escapes_fails_the_check :
   prop_ok (mkCase true [sc1 [stx] RPanic] [0; 0; 0]%nat [] (wlog V) (map tobs_of (wthreads V)) 0) = true /\
   map tst (wthreads V) = [TDone (mkRes 1 (Some BPanic) (RetErr (ERecover None)) false)].
 Proof. vm_compute. repeat split; reflexivity. Qed.
+
+(* ---- C14-13: "} else if err = tx.Commit(); err != nil && ctx.Err() != nil { tx.Rollback() ... }".
+   The log of this variant is read at the level of the transaction object handed to transactOnConn
+   (what the white-box executor logs): the second end call is an entry, although *sql.Tx answers it
+   with ErrTxDone without telling the driver. The context is the one that was done when the body
+   ended ([canc] of the state). ------------------------------------------------------------------ *)
+Definition is_fail (o : outcome) : bool := match o with OFail => true | _ => false end.
+
+Definition tstep_commit_then_rollback (g : bool) (t : nat) (sc : script) (st : tstate) (orc : list reply) : qout :=
+  match st with
+  | TBody k [] canc false =>
+    let '(st', l, orc1, leak) := finish g t sc false (fin_out (sfin sc)) orc in
+    match l with
+    | [e] => if is_commit (ecall e) && is_fail (eout e) && sctxapi sc && canc
+             then (st', l ++ [mkEnt t (sconn sc) CRollback OFail (mkVal VTxDone MBare)], orc1, leak)
+             else (st', l, orc1, leak)
+    | _ => (st', l, orc1, leak)
+    end
+  | _ => tstep g t sc st orc
+  end.
+
+(* "begins one transaction and ends it exactly once": one Begin, TWO end calls *)
+Theorem commit_failed_then_rollback_refuted :
+  exists scs sched orc th r,
+    let W := exec_gen (tstep_commit_then_rollback true) scs sched orc in
+    nth_error (wthreads W) 0 = Some th /\ tst th = TDone r /\ rbody r = Some BNil /\
+    count begun_ok (proj 0 (wlog W)) = 1%nat /\ count ent_end (proj 0 (wlog W)) = 2%nat /\
+    prop_ok (mkCase true scs sched orc (wlog W) (map tobs_of (wthreads W)) 0) = false.
+Proof.
+  exists [sc1 [stx; mkStep ACancel FStop] RNil], [0; 0; 0; 0]%nat, [ok; ok; fl].
+  eexists. eexists. vm_compute. repeat split; auto.
+Qed.
+
+(* the code as it is: one end call, whatever the context *)
+Example commit_failed_under_done_context_is_one_end :
+  map ecall (wlog (exec true [sc1 [stx; mkStep ACancel FStop] RNil] [0; 0; 0; 0]%nat [ok; ok; fl])) =
+  [CBegin; CStmt 0 KExec; CCommit].
+Proof. vm_compute. reflexivity. Qed.
 
 (* the same runs on the code as it is *)
 Example commit_error_kept :
